@@ -832,6 +832,7 @@ def alias_world(ctx, res, tag_seed):
                     if branching_gates(subject, nmap) > 3:
                         backend = "dm" if subj_small else None
                     if backend is None:
+                        res.count("errors", "compile_noisy:skipped(more than 3 branching gates on more than 4 qubits)")
                         continue
                     comp = compilers[backend]
                     comp.measurement_determinism = 1
